@@ -274,6 +274,25 @@ pub fn cases(thorough: bool) -> Vec<Case> {
             out.push(build_spread(&slots, off));
         }
     }
+    // wide: 65 / 70 / 130 bindings in one group (ascending, descending), 65 / 70 groups of one binding, and a duplicate at
+    // the far end of a long sequence
+    for n in [65u64, 70, 130] {
+        let asc: Vec<(u64, u64)> = (0..n).map(|b| (0, b)).collect();
+        out.push(build(&asc, true, 0));
+        let desc: Vec<(u64, u64)> = (0..n).rev().map(|b| (0, b)).collect();
+        out.push(build(&desc, false, 1));
+        let groups: Vec<(u64, u64)> = (0..n.min(70)).map(|g| (g, 0)).collect();
+        out.push(build(&groups, false, 2));
+        let mut dup = asc.clone();
+        dup.push((0, 0));
+        out.push(build(&dup, false, 3));
+        let mut dup2 = asc.clone();
+        dup2.push((0, n - 1));
+        out.push(build(&dup2, false, 4));
+        let mut gap: Vec<(u64, u64)> = (0..n.min(70)).map(|g| (g, 0)).collect();
+        gap.remove(64.min(gap.len() - 2));
+        out.push(build(&gap, false, 5));
+    }
     // boundary layer: extreme indices, depth <= 2
     let ext: [u64; 8] = [0, 1, 2, 255, 65535, 1 << 31, u32::MAX as u64, (u32::MAX as u64) + 1];
     let mut egrid = vec![];
